@@ -11,7 +11,9 @@ CONSTANTS FAMILY, OUT
 I(s) == TrLeafT("int", s)
 S(s) == TrLeaf(s)
 Ptr(d, x) == [t |-> "ptr", d |-> d, x |-> x]
-Sl(arr, e) == [t |-> "sl", arr |-> arr, e |-> e]
+Sl(arr, e) == [t |-> "sl", arr |-> arr, ety |-> "typed", slack |-> 0, e |-> e]
+SlP(e) == [t |-> "sl", arr |-> FALSE, ety |-> "ptr", slack |-> 0, e |-> e]          \* []*int
+SlA(e) == [t |-> "sl", arr |-> FALSE, ety |-> "any", slack |-> 0, e |-> e]          \* []any
 Mp(ks, vs) == [t |-> "mp", ks |-> ks, vs |-> vs]
 St(a, p, c) == [t |-> "st", a |-> a, p |-> p, c |-> c]
 Mpa(ks, e) == [t |-> "mpa", ks |-> ks, e |-> e]
@@ -23,6 +25,10 @@ Leaves == {I(<<"5">>), S(<<"x">>), B, TrNil,
            Sl(FALSE, <<S(<<"a">>), S(<<"b">>), S(<<"c">>)>>),
            Sl(FALSE, <<Sl(FALSE, SubSeq(Ints, 1, 2)), Sl(FALSE, SubSeq(Ints, 2, 3))>>),      \* nested slices
            Ptr(1, Sl(FALSE, Ints)),
+           SlP(SubSeq(Ints, 1, 2)), SlP(<<I(<<"1">>), TrNil>>), SlP(<<TrNil, TrNil>>),                      \* pointer elements, nil pointers
+           SlA(<<I(<<"1">>), S(<<"a">>), Ptr(1, I(<<"5">>))>>), SlA(<<TrNil, Ptr(2, S(<<"x">>))>>),           \* []any of leaves
+           SlA(<<Sl(FALSE, SubSeq(Ints, 1, 2)), Mp(<<<<"k">>>>, <<<<"1">>>>), St(<<"1">>, <<"p">>, <<"c">>)>>),
+           SlA(<<SlA(<<S(<<"z">>), Ptr(1, I(<<"5">>))>>), I(<<"2">>)>>),
            Mp(<<>>, <<>>), Mp(<<<<"k">>>>, <<<<"1">>>>), Mp(<<<<"k">>, <<"j">>>>, <<<<"1">>, <<"2">>>>),
            Mpa(<<<<"k">>>>, <<TrNil>>), Mpa(<<<<"k">>, <<"j">>>>, <<S(<<"x">>), TrNil>>), Mpa(<<<<"k">>, <<"j">>>>, <<I(<<"5">>), S(<<"y">>)>>),
            St(<<"1">>, <<"p">>, <<"c">>), Ptr(1, St(<<"2">>, <<"r">>, <<"d">>))}
@@ -31,6 +37,7 @@ Leaves == {I(<<"5">>), S(<<"x">>), B, TrNil,
 Flat  == {[TrStk(k, <<l>>) EXCEPT !.cap = c] : k \in {"AND", "LIST", "BASIC"}, l \in Leaves, c \in {0, 3}}
      \cup {TrStk("OR", <<l1, l2>>) : l1 \in Leaves, l2 \in {I(<<"5">>), Sl(FALSE, Ints), S(<<"x">>)}}
 InCond == {TrStk("AND", <<TrCnd(<<"k">>, "Eq", l), S(<<"y">>)>>) : l \in Leaves \ {TrNil}}
+     \cup {TrStk("AND", <<TrCnd(kw, op, S(<<"v">>))>>) : kw \in {<<"k">>, <<"K", "x">>, <<"c", "1">>}, op \in {"like", "LIKE", "Ge"}}
 Nested == {TrStk("AND", <<S(<<"y">>), [TrStk("OR", <<l, KV>>) EXCEPT !.form = f], TrCnd(<<"c">>, "Ge", TrStk("LIST", <<l>>))>>) :
              l \in Leaves, f \in {"native", "alias", "ptr"}}
 
